@@ -53,6 +53,14 @@ CLAIMS = {
  "C10": ("Safety clause only: the server calls setN only with an n validated to 1..254 that it took from a client SYN, the SYN echo on the wire carries "
          "the adopted n, the client completes only after a SYN with N equal to its own proposal (point assertion) and non-SYN packets change nothing.",
          "The convergence clause (a handshake eventually succeeds once the transport behaves) is liveness over timers and is not covered."),
+ "C11": ("Sequential clauses of Server.Accept and Client.Dial proved for every state satisfying the listener/dialer invariant: a connection is handed out only after "
+         "the previous one's quit channel (closed only by its Close) is closed; the returned connection is the one remembered in mailboxConn, is a new object "
+         "with an open quit channel; its two stream ids are derived (GetSID direction bit) from the session id currently in force, which is re-read from ConnData "
+         "before every connection (point assertion: the id passed to the constructor is the remembered one); on a changed session id the old connection is "
+         "stopped and a new one is created, otherwise RefreshClientConn/RefreshServerConn keep the stream ids; ConnData.HandshakePattern is XX iff no remote "
+         "key is stored and SetRemote stores the key only when the callback accepted it.",
+         "ConnData.SID (hash/ECDH), ClientConn.Close and ServerConn.Stop are trusted contracts; exclusivity as a schedule property (another goroutine using the old "
+         "connection while Accept/Dial runs), 'a fresh working connection' (needs the relay and the GBN handshake to succeed) and the admission of a second client are not covered."),
  "C12": ("Typestate clauses only: Close's once-body closes quit, sends FIN unless the peer already did, cancels the context, stops the send queue, "
          "waits for the loops and stops every ticker created by start (ping, pong, resend); a second Close changes nothing; Send/Recv entered after "
          "quit is closed return an error without touching the data channels; every blocking select of Send, Recv, both loops, both handshakes and the "
@@ -114,6 +122,7 @@ CLAIMS = {
 }
 
 NA = {
+
  "C05": "end-to-end composition of four goroutines per endpoint and relay fault schedules with a liveness clause; no pre/postcondition or data-structure invariant within reach of a deductive verifier carries it (its layer-local content is claimed under C01, C02, C14, C15, C19)",
  "C06": "bounded-time delivery / no silent stall / quiescence are liveness properties over timers and interleavings, on which contracts are silent (the safety fragment 'resend sends nothing when the window is empty' is an obligation of C01/C09)",
  "C13": "real-time detection bounds of ticker goroutines racing with the send loop cannot be expressed as pre/postconditions",
